@@ -44,7 +44,8 @@ fn gen_layout(r: &mut Rng, absorbing: bool) -> Layout {
     // Special repeats: usually one plain key; now and then up to three keys drawn from the trigger, the output, the modifiers and the plain outputs
     let repeat = match r.below(4) { 0 => Repeat::Disabled, 1 => {
         let mut keys = vec![OUTS[0]];
-        if r.below(2) == 0 { keys.clear(); let nk = 1 + r.below(3); let rp: Vec<KeyCode> = from.iter().chain(to.iter()).chain(mods.iter()).chain(OUTS.iter()).cloned().collect();
+        if r.below(2) == 0 { keys.clear(); let nk = r.below(4);      // (an empty chord is allowed: the timer then ticks without writing anything)
+                             let rp: Vec<KeyCode> = from.iter().chain(to.iter()).chain(mods.iter()).chain(OUTS.iter()).cloned().collect();
                              while keys.len() < nk { let k = rp[r.below(rp.len())]; if !keys.contains(&k) { keys.push(k); } } }
         Repeat::Special { keys, delay_ms: [10, 0, 1, 250][r.below(4)], interval_ms: [5, 1, 30][r.below(3)] } }, _ => Repeat::Normal };
     let mut absorbing_l = Vec::new();
